@@ -230,17 +230,12 @@ def run(chk):
         df = decomp_facts(v)
         if kf is None or df is None:
             chk.broken("structural facts for the noise model not derivable (key switch: %s, decomposition: %s)" % (kf, df))
-        sel = v.fn(c19.SELECTOR)
-        sets = {}
-        for f in v.defined():
-            if f.name.startswith("default_") and f.name.endswith("gate_bootstrapping_parameters"):
-                ps_, err = c19.param_set(v, f)
-                if ps_ is None:
-                    chk.broken(err)
-                sets[f.name] = (f, ps_)
+        # the parameter sets the selector can hand out (a constructor per set, or one builder with arguments computed from the request)
+        _sel, _pts, _outs, sets_ = c19.selected_parameter_sets(chk, v)
+        sets = {k_[0] + ("(%s)" % ", ".join(map(str, k_[1])) if k_[1] else ""): (v.fn(k_[0]), ps_) for k_, ps_ in sets_.items()}
         chk.vcount(vn, "R3.parameter_sets", len(sets))
         if len(sets) != 2:
-            chk.broken("expected two default parameter constructors, found %s" % sorted(sets))
+            chk.broken("expected two default parameter sets, found %s" % sorted(sets))
         for name, (f, c) in sorted(sets.items()):
             label = "128" if c["n"] >= 600 else "80"
             bound = BOUNDS[label]
